@@ -333,7 +333,9 @@ func runC08(p *an.Prog, r *an.Run, tier string) {
 		if !ok || len(els) != 1 || !p.Derives(0, els[0]).HasParam(idPrm) {
 			bad = append(bad, "vipnode_whitelist is not called with exactly the requester's node id")
 		}
-		if p.Derives(0, a[0]).CallTo(func(f *types.Func) bool { return an.IsFunc(f, "context", "WithTimeout") || an.IsFunc(f, "context", "WithDeadline") }) == nil {
+		if p.Derives(0, a[0]).CallTo(func(f *types.Func) bool {
+			return an.IsFunc(f, "context", "WithTimeout") || an.IsFunc(f, "context", "WithDeadline")
+		}) == nil {
 			bad = append(bad, "the whitelist call has no timeout: one silent host would block the whole reply")
 		}
 		u := an.ErrEdges(c)
@@ -474,6 +476,9 @@ func runC08(p *an.Prog, r *an.Run, tier string) {
 		})
 	}
 	r.Check(len(bad) == 0, "ack", name, rh.Pos(), "accepted <=> vipnode_whitelist(requester) returned nil on that host's connection within the timeout; error only when nothing accepted", "%s", strings.Join(dedup(bad), "; "))
+	checkErrorReplies(p, r)
+	// the "not already its peer" filter reads the tracked peer set, which must survive re-registration (shared with C12)
+	checkSetNodeKeepsPeers(p, r)
 
 	// ---- test-bypass
 	bad = nil
@@ -901,4 +906,105 @@ func limitSemantics(p *an.Prog, d *types.Named, m *ssa.Function, app *ssa.Call) 
 		}
 	}
 	return bad
+}
+
+// checkErrorReplies: "returned nil" means "the host acknowledged" only if every Service implementation turns a reply's
+// error member into a Go error: each non-failing return of a Call method is the result of Response.UnmarshalResult
+// (which consults Error first), also when the caller passes a nil result as the pool does for whitelist/disconnect.
+func checkErrorReplies(p *an.Prog, r *an.Run) {
+	svc := p.Iface("jsonrpc2", "Service")
+	ur := p.Method("jsonrpc2", "Response", "UnmarshalResult")
+	if svc == nil || ur == nil {
+		r.Undec("ack", "jsonrpc2.Service", token.NoPos, "jsonrpc2.Service / Response.UnmarshalResult not found")
+		return
+	}
+	isUR := func(v ssa.Value) bool {
+		c, ok := v.(*ssa.Call)
+		return ok && c.Common().StaticCallee() == ur
+	}
+	n := 0
+	for _, impl := range p.Implementations(svc) {
+		m := p.MethodOf(impl, "Call")
+		if m == nil || p.IsTestFunc(m) || !p.InRepo(m) || strings.Contains(m.Pkg.Pkg.Path(), "/internal/") {
+			continue
+		}
+		n++
+		r.Analysed(an.FuncName(m))
+		var bad []string
+		an.AllInstrs(m, func(in ssa.Instruction) {
+			ret, ok := in.(*ssa.Return)
+			if !ok {
+				return
+			}
+			if m.Recover != nil && ret.Block() == m.Recover {
+				return // synthetic exit taken only after a recovered panic (none in this code)
+			}
+			rr := an.RetResults(ret)
+			if len(rr) == 0 {
+				return
+			}
+			res := rr[len(rr)-1]
+			var check func(v ssa.Value, depth int) bool
+			check = func(v ssa.Value, depth int) bool {
+				if isUR(v) || definitelyNonNilError(v) || returnOnFailEdge(ret, v) {
+					return true
+				}
+				if ph, ok := v.(*ssa.Phi); ok && depth < 4 {
+					for _, e := range ph.Edges {
+						if !check(e, depth+1) {
+							return false
+						}
+					}
+					return true
+				}
+				// delegation to another Service's Call
+				if c, ok := v.(*ssa.Call); ok {
+					if f := an.CallObj(c); f != nil && f.Name() == "Call" {
+						return true
+					}
+				}
+				return false
+			}
+			if !check(res, 0) {
+				bad = append(bad, "the return at "+p.Pos(ret.Pos())+" can report success without the reply's error member having been consulted (Response.UnmarshalResult): an error reply to vipnode_whitelist would count as an acknowledgement")
+			}
+		})
+		r.Check(len(bad) == 0, "ack", an.FuncName(m), m.Pos(), "a reply's error member always becomes the call's error", "%s", strings.Join(dedup(bad), "; "))
+	}
+	r.Floor("service-implementations", n, 3)
+	// UnmarshalResult consults Error before anything else
+	var bad []string
+	an.AllInstrs(ur, func(in ssa.Instruction) {
+		ret, ok := in.(*ssa.Return)
+		if !ok {
+			return
+		}
+		res := an.RetResults(ret)[0]
+		if mi, ok := res.(*ssa.MakeInterface); ok {
+			if fv := an.FieldOf(stripLoad(mi.X)); fv != nil && fv.Name() == "Error" {
+				return
+			}
+		}
+		okCtl := false
+		for _, c := range an.ControllingIfs(ret.Block()) {
+			if b, ok := c.If.Cond.(*ssa.BinOp); ok {
+				if fv := an.FieldOf(stripLoad(b.X)); fv != nil && fv.Name() == "Error" {
+					if (b.Op == token.NEQ && c.Succ == 1) || (b.Op == token.EQL && c.Succ == 0) {
+						okCtl = true
+					}
+				}
+			}
+		}
+		if !okCtl {
+			bad = append(bad, "UnmarshalResult can return at "+p.Pos(ret.Pos())+" without having tested the reply's Error")
+		}
+	})
+	r.Check(len(bad) == 0, "ack", an.FuncName(ur), ur.Pos(), "the error member is tested before the result is used", "%s", strings.Join(bad, "; "))
+}
+
+func stripLoad(v ssa.Value) ssa.Value {
+	if u, ok := v.(*ssa.UnOp); ok && u.Op == token.MUL {
+		return u.X
+	}
+	return v
 }
